@@ -155,36 +155,46 @@ func TestVerifPurity(t *testing.T) {
 	// 5. a receiver that already holds a decoded vector: the next Decode is rejected, or gives what a fresh receiver gives
 	for _, v1 := range vrVectors {
 		for _, v2 := range vrVectors {
-			used, fresh := NewEnvironmental(), NewEnvironmental()
-			if _, err := used.Decode(v1); err != nil {
-				continue
+			type dec struct {
+				name string
+				mk   func() (func(string) (vrObj, bool), func() string)
 			}
-			r1, err1 := used.Decode(v2)
-			r2, err2 := fresh.Decode(v2)
-			if err1 != nil || r1 == nil {
-				continue
+			decs := []dec{
+				{"Base", func() (func(string) (vrObj, bool), func() string) {
+					o := NewBase()
+					return func(s string) (vrObj, bool) { r, err := o.Decode(s); return r, err == nil && r != nil }, func() string { return fmt.Sprint(o.Severity()) }
+				}},
+				{"Temporal", func() (func(string) (vrObj, bool), func() string) {
+					o := NewTemporal()
+					return func(s string) (vrObj, bool) { r, err := o.Decode(s); return r, err == nil && r != nil }, func() string {
+						return fmt.Sprint(o.Severity(), o.BaseMetrics().Score(), o.BaseMetrics().String())
+					}
+				}},
+				{"Environmental", func() (func(string) (vrObj, bool), func() string) {
+					o := NewEnvironmental()
+					return func(s string) (vrObj, bool) { r, err := o.Decode(s); return r, err == nil && r != nil }, func() string {
+						return fmt.Sprint(o.Severity(), o.BaseMetrics().Score(), o.TemporalMetrics().Score(), o.TemporalMetrics().String())
+					}
+				}},
 			}
-			if err2 != nil || r2 == nil {
-				fmt.Printf("PURITY-HIT Environmental receiver that decoded %q accepts %q, which a fresh receiver rejects (%v)\n", v1, v2, err2)
-				return
-			}
-			ex := func(e *Environmental) func() string {
-				return func() string { return fmt.Sprint(e.Severity(), e.BaseMetrics().Score(), e.TemporalMetrics().Score(), e.TemporalMetrics().String()) }
-			}
-			a, b := vrQueries(r1, ex(r1)), vrQueries(r2, ex(r2))
-			if a != b {
-				fmt.Printf("PURITY-HIT Decode(%q) on a receiver that decoded %q before succeeds with results that depend on the earlier vector\n  reused: %s\n  fresh:  %s\n", v2, v1, a, b)
-				return
-			}
-			ut, ft := NewTemporal(), NewTemporal()
-			if _, err := ut.Decode(v1); err != nil {
-				continue
-			}
-			t1, e1 := ut.Decode(v2)
-			t2, e2 := ft.Decode(v2)
-			if e1 == nil && t1 != nil {
-				if e2 != nil || t2 == nil || fmt.Sprint(t1.Score(), t1.String(), t1.BaseMetrics().Score()) != fmt.Sprint(t2.Score(), t2.String(), t2.BaseMetrics().Score()) {
-					fmt.Printf("PURITY-HIT Temporal receiver that decoded %q: Decode(%q) succeeds with %v %s, a fresh receiver gives err=%v\n", v1, v2, t1.Score(), t1.String(), e2)
+			for _, d := range decs {
+				usedDec, usedEx := d.mk()
+				freshDec, freshEx := d.mk()
+				if _, ok := usedDec(v1); !ok {
+					continue
+				}
+				r1, ok1 := usedDec(v2)
+				if !ok1 {
+					continue
+				}
+				r2, ok2 := freshDec(v2)
+				if !ok2 {
+					fmt.Printf("PURITY-HIT %s receiver that decoded %q accepts %q, which a fresh receiver rejects\n", d.name, v1, v2)
+					return
+				}
+				a, b := vrQueries(r1, usedEx), vrQueries(r2, freshEx)
+				if a != b {
+					fmt.Printf("PURITY-HIT %s decoder: Decode(%q) on a receiver that decoded %q before succeeds with results that depend on the earlier vector\n  reused: %s\n  fresh:  %s\n", d.name, v2, v1, a, b)
 					return
 				}
 			}
